@@ -16,6 +16,31 @@ CLAIMS = {
         "note": "Trusts CrossHair's path exhaustion + z3, the short legality oracle (vf/model.py), the stubs (null logger, pinned StateNode hash, virtual-time loop). Pre-states: arbitrary legal configuration x history assignments reachable by public send() over a driver alphabet. Outside: machines beyond the skeleton family (curated CUR1-9 + generated trees <=4/5 nodes), services/timers during the step, multi-target transitions.",
         "design": "DESIGN.md section 4 C01",
     },
+    "C02": {
+        "text": "Bounded symbolic check: send()/can() on wired skeleton machines from every legal configuration with every guard outcome symbolic (true/false/raise, one independent variable per evaluated guard): the transitions that fire are exactly the reference nominees (deepest handler, first enabled, once per region, stale sources skipped), in order, each guard evaluated once per pass; an event with no nominee changes nothing; can() agrees and changes nothing.",
+        "note": "Trusts CrossHair/z3, the reference selection in harness/c02.py, the stubs. Machines: curated skeletons wired with a fixed 5-event alphabet (E0..E3,U) + generated small trees; guards assumed pure. Outside: descriptor matching (C20), guards with side effects, machines beyond the family.",
+        "design": "DESIGN.md section 4 C02",
+    },
+    "C03": {
+        "text": "Bounded symbolic check (inductive step): one transition with symbolic source/target/reenter from every publicly reachable (configuration, history) pair of each skeleton, on both engines; the recorder log of marker entry/exit/transition actions and the observed _cancel_state_tasks/_schedule_state_tasks calls satisfy exit<transition<entry, child-before-ancestor exits, ancestor-before-child entries, event identity, per-state entry/exit accounting, never-entered-while-active and the LCA frame condition; internal/targetless transitions run actions only.",
+        "note": "Trusts CrossHair/z3, the log oracle in harness/c03.py, the stubs. Timer/service effects observed at the engine's own entry points (states declare none). Outside: multi-transition macrosteps (C02/C10), machines beyond the skeleton family.",
+        "design": "DESIGN.md section 4 C03",
+    },
+    "C06": {
+        "text": "Bounded symbolic check: GuardDefinition + _is_guard_satisfied on 7 expression templates (depth<=3) with symbolic operators, operand spellings and atom outcomes (true/false/raise/missing) against a three-valued short-circuit reference; every atom form incl. literal/computed params and user-defined stateIn; _is_state_in with a free symbolic state name against concrete configurations; cond==guard at transition and choose level; raising/missing guards inside selection on both engines; same-named guards with different params in one selection pass.",
+        "note": "Trusts CrossHair/z3 and the references in harness/c06.py. Expression space = the templates, not all formulas; state names <= 4 (quick) / 6 chars; string-form stateIn params only with concrete names (a symbolic str there makes CrossHair's tree explode).",
+        "design": "DESIGN.md section 4 C06",
+    },
+    "C10": {
+        "text": "Bounded symbolic check: one event from every stable configuration of a completion machine (3-region parallel state with history child, nested compound with its own onDone, targetless parallel onDone; also a variant with prefix-named regions) and symbolic event sequences from start(): onDone fires exactly when the independently recomputed doneness rises, never while a region is not final, done data = final state's output; top-level final: status done once, on_done once, machine-level output precedence (4 variants incl. falsy), later sends are no-ops, stop() still works. Both engines.",
+        "note": "Trusts CrossHair/z3 and done_ref in harness/c10.py. One fixed machine family (DM, DM2, TOP0-3), sequences <= 3 (quick) / 4; release of timers/services/actors by stop() after completion is C14's subject.",
+        "design": "DESIGN.md section 4 C10",
+    },
+    "C11": {
+        "text": "Bounded symbolic check: a history-targeting transition taken from outside the history node's parent, from every publicly reachable (configuration, recorded history) pair (never visited where reachable / any last sub-configuration), optionally through a snapshot round trip, on both engines, activates exactly the reference sub-configuration (shallow: recorded child + default descent; deep: recorded leaves; unvisited: default target else normal entry) and enters each restored state exactly once.",
+        "note": "Trusts CrossHair/z3, model.history_ref/complete_config, the native reachability exploration that supplies the pre-states (it runs the real _record_history). Skeletons: curated CUR4/5/9/12/13 + generated trees with history nodes. History targets taken while the parent is active are excluded (statement leaves them open).",
+        "design": "DESIGN.md section 4 C11",
+    },
     "C20": {
         "text": "Bounded symbolic check: BaseInterpreter._matching_descriptors on 2-3 symbolic (arbitrary unicode) keys and a symbolic event type equals the reference ordering exact > partial by decreasing prefix > '*', engine-internal events exact only; and send() of a symbolic event type on a two-level machine with symbolic guard outcomes and null entries fires exactly the reference nominee on both engines.",
         "note": "Trusts CrossHair/z3 and the reference descriptor_ref/_select_ref. String lengths bounded (L in evidence); a duck-typed linear-scan mapping replaces dict for symbolic keys; the engine-level machine is one fixed two-level shape with 7 null-entry variants.",
